@@ -34,6 +34,9 @@ Definition n_unauthenticated (s : state) : N := nlen (filter (fun d => negb (d_a
 (* c is in the queue of the name: what ListQueuedOwners reports *)
 Definition in_queue (c : N) (kq : key * queue) : bool := existsb (fun o => o_conn o =? c) (snd kq).
 Definition n_names (s : state) (c : N) : N := nlen (filter (in_queue c) (s_services s)).
+(* c already holds that name (owner or waiting): a request for it does not add to the count *)
+Definition holds_name (s : state) (c : N) (name : bytes) : bool :=
+  match lookup (s_services s) (KW name) with Some q => in_queue c (KW name, q) | None => false end.
 
 Definition n_rules (s : state) (c : N) : N := nlen (filter (fun e => fst e =? c) (s_rules s)).
 Definition n_awaiting (s : state) (c : N) : N := nlen (filter (fun p => p_get p =? c) (s_pending s)).
@@ -79,7 +82,8 @@ Definition demand (s : state) (e : levent) : option resource :=
   match e with
   | Connect _ => Some RIncompleteSlot
   | Hello c => if connected s c && authenticated s c && negb (registered s c) then Some (RConnectionSlot (uid_of s c)) else None
-  | RequestName c name _ => if registered s c && requestable name then Some (RNameSlot c) else None
+  | RequestName c name _ =>
+      if registered s c && requestable name && negb (holds_name s c name) then Some (RNameSlot c) else None
   | AddMatch c _ => if registered s c then Some (RRuleSlot c) else None
   | Call c d serial noreply _ =>
       if registered s c && registered s d && negb noreply && negb (outstanding s c d serial) then Some (RReplySlot c) else None
